@@ -17,6 +17,18 @@ claimed = {
  'C09': ("contract-based deductive verification: functional contract of checkMissingWhereConditions from the property statement + dominance site obligations in the Update/Delete executors, SMT-discharged",
          "Proof, for all clause maps, that the guard rejects exactly the statements without an effective condition (soft-delete filter not counted) and that every driver call of the update/delete executors happens after the guard ran and passed.",
          "BuildCondition returns no expression for empty forms (trusted, reflection); WHERE entries hold clause.Where (proved for Where.MergeClause)", "4/C09"),
+ 'C02': ("contract-based deductive verification: K1 contracts of the condition constructors And/Or/Not and Where.MergeClause, SMT-discharged; raw-string grouping decided by a bounded stand-in on the real Build methods",
+         "Proof, for all inputs, that And/Or/Not build exactly the documented group structure (empty = no condition, single non-OR unit unchanged, AND-group negated member-wise) and that successive Where clauses concatenate in call order. The parenthesising of raw AND/OR strings (string reasoning, outside the verifier's reach) is covered by a BOUNDED exhaustive run of the real Build methods, labelled bounded and not counted as proved.",
+         "SQL precedence; atoms mean what they say; BuildCondition's form conversion is trusted (reflection)", "4/C02"),
+ 'C13': ("contract-based deductive verification: loop invariants on callMethod (one hook call per element, CurDestIndex tracks the element), ghost-protocol contracts on the hook closures (every hook error reaches AddError), site obligations (hooks only without pending error and without SkipHooks; Save's upsert fallback skips hooks), derivations keep SkipHooks, SMT-discharged",
+         "Proof of the dispatch lemmas of DESIGN 4/C13 on the real callbacks; the pipeline order and that hooks run on the operation's transaction rest on C05/C17 lemmas.",
+         "schema.Parse sets the hook flags from the method set; hooks do not reassign the handle's Statement or CurDestIndex (K3 writers sweep proves no /repo function other than the listed ones does)", "4/C13"),
+ 'C14': ("contract-based deductive verification: ghost lock-state contracts on PreparedStmtDB.prepare/ExecContext/QueryContext/Reset/Close and PreparedStmtTX (map access only under the mutex, no blocking call while it is held, mutex free at every return, in-progress entry closed exactly once, failed preparation evicted and reported, usable entries reused, every cached entry handed to a closer that waits for its preparation), SMT-discharged",
+         "Proof of the per-function premises of the monitor argument (DESIGN 4/C14) with interference (arbitrary shared-state change) at every lock acquisition and blocking point. The composition over schedules (deadlock freedom, at-most-one prepare per text) is a paper argument and NOT decided.",
+         "goroutine interleaving semantics; fairness; database/sql; finding F11 (Reset through a session handle leaves closed statements in the shared map) is not expressible yet and is recorded in DESIGN.md only", "4/C14"),
+ 'C17': ("contract-based deductive verification: full K1 proof of getRIndex (with bounds safety); the ordering algorithm sortCallbacks is covered by a bounded stand-in on the real Register/Before/After/Replace/Remove",
+         "Proof that getRIndex returns the last index of a name or -1 (every ordering decision rests on it). The ordering property itself is NOT proved: it is checked exhaustively for all registration sequences up to length 2 (quick) / 3 (thorough) on the real code, labelled bounded.",
+         "sortCallbacks' recursive rewriting is outside the verifier's reach (DESIGN 4/C17)", "4/C17"),
  'C15': ("contract-based deductive verification: functional contract of clause.Limit.MergeClause (merge rules of the property) over go/ssa, SMT-discharged",
          "Proof, for all inputs, that later positive Limit/Offset values override and negative values cancel, as the property states.",
          "SQL engine semantics of LIMIT/OFFSET; other read paths not yet under contract", "4/C15"),
